@@ -1,7 +1,8 @@
 (* ======================================================================================
    Proof/WtPipeline  -  the C12 composition with NO typing hypothesis left (C12_pipeline_wt):
-   from the boolean guard on the checked source program (prog_tyguard) and boolean conditions on two
-   stage outputs (pre_check of the Core program; names_ok and decls_ok of the focused program), every
+   from the boolean guard on the checked source program (prog_tyguard) and two boolean conditions on ONE
+   stage output (names_ok and decls_ok of the focused program; pre_check of the Core program is proved:
+   Proof/Fun2CoreIds.v), every
    stage succeeds, every intermediate program is accepted by its checker and the three code generators
    return Ok within capacity.  Links: fun2core (Proof/Fun2CoreTyProg.v, Fun2CoreTyTotal.v), uniquify + focus
    (Proof/FocusTyTop.v), shrink (Proof/ShrinkTyTop.v), wt_ax -> prog_ok, linearize, code generation.
@@ -12,7 +13,7 @@ From SCC Require Import Sem.FsCheck Sem.CoreCheck Sem.FsFrag2.
 From SCC Require Sem.AxCheck.
 From SCC Require Import Model.Fun2Core Model.Fun2CoreTyGuard Model.Backend Model.Uniquify Model.Focus Model.FocusCheck Model.FocusTyGuard
      Model.Shrink Model.Linearize Model.LinCheck Model.Capacity Model.WtDefs Model.X86 Model.A64 Model.RV.
-From SCC Require Import Proof.Fun2CoreProof Proof.Fun2CoreProg Proof.Fun2CoreTyProg Proof.Fun2CoreTyTotal Proof.FocusKont Proof.FocusTyTop
+From SCC Require Import Proof.Fun2CoreProof Proof.Fun2CoreProg Proof.Fun2CoreTyProg Proof.Fun2CoreTyTotal Proof.Fun2CoreIds Proof.FocusKont Proof.FocusTyTop
      Proof.WtPreserve Proof.ShrinkProof Proof.ShrinkTyTop Proof.AxToLin Proof.LinearizeProof
      Proof.CodegenTotal Proof.CodegenX86 Proof.CodegenA64 Proof.CodegenRV.
 Import ListNotations.
@@ -59,7 +60,6 @@ Qed.
 
 Theorem pipeline_wt_lemma : forall p,
   prog_tyguard p = true ->
-  (forall c, compile_prog p = Fun2Core.Ok c -> pre_check c = true) ->
   (forall c f, compile_prog p = Fun2Core.Ok c -> focus_prog c = Backend.Ok f -> FsFrag2.names_ok f = true /\ FsFrag2.decls_ok f = true) ->
   exists c f a,
     compile_prog p = Fun2Core.Ok c /\ wt_core c = true /\
@@ -71,12 +71,12 @@ Theorem pipeline_wt_lemma : forall p,
     (forall lc, within_capacity_a64 l = true -> exists code lc', a64_compile l lc = Backend.Ok (code, main_arity l, lc')) /\
     (forall lc, within_capacity_rv l = true -> exists code lc', rv_compile l lc = Backend.Ok (code, main_arity l, lc')).
 Proof.
-  intros p HG HP HN.
+  intros p HG HN.
   destruct (fun2core_total_guarded p HG) as [c EC].
   pose proof (fun2core_preserves_typing_frag2 p c HG EC) as WC.
   destruct (focus_total_wt c WC) as [f EF].
   destruct (HN c f EC EF) as [NO DO].
-  destruct (focus_wt_of_compiled p c f EC WC (HP c EC) EF DO) as (WF & UB & IB & GU).
+  destruct (focus_wt_of_compiled p c f EC WC (fun2core_pre_check p c EC) EF DO) as (WF & UB & IB & GU).
   assert (FR : frag2t_prog f = true) by (unfold frag2t_prog; rewrite NO, DO, GU; reflexivity).
   destruct (shrink_total f WF) as [a EA].
   destruct (shrink_preserves_typing_frag2 f a FR WF UB IB EA) as (WA & PL & BO).
